@@ -25,6 +25,11 @@
 #include "bee2/crypto/g12s.h"
 #include "bee2/crypto/pfok.h"
 #include "bee2/crypto/stb99.h"
+#include "bee2/math/ecp.h"
+#include "bee2/math/gfp.h"
+#include "bee2/math/ww.h"
+#include "bee2/math/zz.h"
+#include "crypto/bign/bign_lcl.h"
 
 /* ------------------------------------------------------------------ helpers */
 /* validator that sees DECRYPTED protocol data (BSTS Step4/Step5, BAUTH TStep5): defined near the BSTS scenarios */
@@ -1297,6 +1302,168 @@ static err_t s_bstsStep(int which, int var)
 static err_t s_bstsS4(int var) { return s_bstsStep(0, var); }
 static err_t s_bstsS5(int var) { return s_bstsStep(1, var); }
 
+/* ------------------------------------------------------------------ sizes beyond internal thresholds, and error exits reached
+   with SEMANTICALLY VALID secrets: a genuine token / ciphertext / password with exactly one wrong public parameter
+   (expected header, iv, associated data, expected mac, counter).  var = size index * NV + variant. */
+static const size_t XS[7] = { 16, 32, 64, 65, 96, 200, 1040 };
+static octet XK[1100], XT[1200], XO[1200];
+static void xkey(size_t n)           /* the secret that is transported / protected: n octets, no short period */
+{
+	size_t i;
+	for (i = 0; i < sizeof XK; ++i) XK[i] = (octet)((i * i * 7 + i * 13 + 5) ^ (i >> 8) ^ 0x5C);
+	sec_add(XK, n < 64 ? n : 64, "plaintext-key");
+	if (n > 64) sec_add(XK + n - 64, 64, "plaintext-key-tail");
+}
+/* beltKWPUnwrap: 0 ok, 1 genuine token + another expected header, 2 genuine token + no header expected, 3 corrupted token */
+static err_t s_kwpUx(int var)
+{
+	err_t code; size_t n = XS[var / 4]; int k = var % 4; octet hdr2[16];
+	material(); sec_reset(); out_reset(); sec_add_key(K32, 32); xkey(n);
+	beltKWPWrap(XT, XK, n, HDR16, K32, 32);
+	memcpy(hdr2, HDR16, 16); hdr2[5] ^= 0x20;
+	if (k == 3) XT[n / 2] ^= 0x04;
+	out_add(XO, n); g_outdoc = 1;
+	g_expect = k == 0 ? ERR_OK : ERR_BAD_KEYTOKEN;
+	return RUN("beltKWPUnwrap", beltKWPUnwrap(XO, XT, n + 16, k == 1 ? hdr2 : k == 2 ? 0 : HDR16, K32, 32));
+}
+static err_t s_kwpWx(int var)
+{
+	err_t code; size_t n = XS[var];
+	material(); sec_reset(); out_reset(); sec_add_key(K32, 32); xkey(n);
+	out_add(XO, n + 16); g_expect = ERR_OK;
+	return RUN("beltKWPWrap", beltKWPWrap(XO, XK, n, HDR16, K32, 32));
+}
+/* bignKeyUnwrap: 0 ok, 1 genuine token + another expected header, 2 genuine token + no header expected, 3 corrupted key part */
+static err_t s_bignKUx(int var)
+{
+	err_t code; size_t n = XS[var / 4]; int k = var % 4; octet hdr2[16];
+	material(); bign_setup(); sec_reset(); out_reset();
+	tape_start(); bignKeyWrap(XT, PARAMS, XK, n, HDR16, PUB, prngEchoStepR, ECHO);
+	sec_add(PRIV, 32, "privkey"); xkey(n);
+	tape_start(); bignKeyWrap(XT, PARAMS, XK, n, HDR16, PUB, prngEchoStepR, ECHO);
+	memcpy(hdr2, HDR16, 16); hdr2[0] ^= 0x01;
+	if (k == 3) XT[32 + n / 2] ^= 0x40;
+	out_add(XO, n); g_outdoc = 1;
+	g_expect = k == 0 ? ERR_OK : ERR_BAD_KEYTOKEN;
+	return RUN("bignKeyUnwrap", bignKeyUnwrap(XO, PARAMS, XT, 32 + n + 16, k == 1 ? hdr2 : k == 2 ? 0 : HDR16, PRIV));
+}
+static err_t s_bignKWx(int var)
+{
+	err_t code; size_t n = XS[var];
+	material(); bign_setup(); sec_reset(); out_reset(); xkey(n); sec_add(TAPE, 32, "nonce-k"); tape_start();
+	out_add(XO, 32 + n + 16); g_expect = ERR_OK;
+	return RUN("bignKeyWrap", bignKeyWrap(XO, PARAMS, XK, n, HDR16, PUB, prngEchoStepR, ECHO));
+}
+/* DWP / CHE unwrap: 0 ok, 1 wrong expected mac, 2 wrong associated data, 3 wrong iv, 4 genuine data under another key length view */
+static err_t s_aeadUx(int che, int var)
+{
+	err_t code; static const size_t DS[7] = { 1, 16, 64, 65, 96, 200, 1040 }; size_t n = DS[var / 4]; int k = var % 4;
+	octet mac[8], iv2[16], ad[50];
+	material(); sec_reset(); out_reset(); sec_add_key(K32, 32); xkey(n);
+	memcpy(ad, DATA + 200, 50); memcpy(iv2, IV16, 16);
+	if (che) beltCHEWrap(XT, mac, XK, n, ad, 50, K32, 32, IV16); else beltDWPWrap(XT, mac, XK, n, ad, 50, K32, 32, IV16);
+	if (k == 1) mac[7] ^= 0x80;
+	if (k == 2) ad[49] ^= 0x01;
+	if (k == 3) iv2[0] ^= 0x01;
+	out_add(XO, n); g_outdoc = 0;
+	g_expect = k == 0 ? ERR_OK : ERR_BAD_MAC;
+	if (che) return RUN("beltCHEUnwrap", beltCHEUnwrap(XO, XT, n, ad, 50, mac, K32, 32, iv2));
+	return RUN("beltDWPUnwrap", beltDWPUnwrap(XO, XT, n, ad, 50, mac, K32, 32, iv2));
+}
+static err_t s_dwpUx(int var) { return s_aeadUx(0, var); }
+static err_t s_cheUx(int var) { return s_aeadUx(1, var); }
+/* keys of HMAC-based functions on both sides of the block size: 0 Rand, 1 Verify ok, 2 genuine otp + another counter */
+static const size_t HS[6] = { 16, 32, 64, 65, 96, 200 };
+static err_t s_hotpx(int var)
+{
+	err_t code; size_t n = HS[var];
+	material(); sec_reset(); out_reset(); xkey(n);
+	out_add(OTP, 9); g_expect = ERR_OK;
+	return RUN("botpHOTPRand", botpHOTPRand(OTP, 8, XK, n, DATA));
+}
+static err_t s_hotpVx(int var)
+{
+	err_t code; size_t n = HS[var / 2]; int k = var % 2; octet ctr2[8];
+	material(); sec_reset(); out_reset(); xkey(n);
+	memcpy(ctr2, DATA, 8); ctr2[7] ^= 1;
+	botpHOTPRand(OTP, 8, XK, n, DATA);
+	g_expect = k == 0 ? ERR_OK : ERR_BAD_PWD;
+	return RUN("botpHOTPVerify", botpHOTPVerify(OTP, XK, n, k == 0 ? DATA : ctr2));
+}
+static err_t s_totpx(int var)
+{
+	err_t code; size_t n = HS[var / 2]; int k = var % 2;
+	material(); sec_reset(); out_reset(); xkey(n);
+	botpTOTPRand(OTP, 8, XK, n, 1000000);
+	g_expect = k == 0 ? ERR_OK : ERR_BAD_PWD;
+	return RUN("botpTOTPVerify", botpTOTPVerify(OTP, XK, n, k == 0 ? 1000000 : 1000001));
+}
+static err_t s_hmacx(int var)
+{
+	err_t code; size_t n = HS[var];
+	material(); sec_reset(); out_reset(); xkey(n);
+	out_add(BUF1, 32); g_expect = ERR_OK;
+	return RUN("beltHMAC", beltHMAC(BUF1, DATA, 100, XK, n));
+}
+static err_t s_brnghx(int var)
+{
+	err_t code; size_t n = HS[var];
+	material(); sec_reset(); out_reset(); xkey(n);
+	out_add(BUF1, 100); g_expect = ERR_OK;
+	return RUN("brngHMACRand", brngHMACRand(BUF1, 100, XK, n, DATA, 40));
+}
+static err_t s_pbkdfx(int var)
+{
+	err_t code; static const size_t PS[5] = { 1, 8, 64, 65, 200 }; size_t n = PS[var];
+	material(); sec_reset(); out_reset(); xkey(n);
+	out_add(BUF1, 32); g_expect = ERR_OK;
+	return RUN("beltPBKDF2", beltPBKDF2(BUF1, XK, n, 50, IV16, 8));
+}
+/* bpki: genuine container, password of the right length with one octet changed */
+static err_t s_bpkiPUx(int var)
+{
+	err_t code; size_t l = 0, n = 0; octet pwd2[24];
+	material(); bign_setup(); sec_reset(); out_reset();
+	bpkiPrivkeyWrap(BUF2, &l, PRIV, 32, DATA + 300, 24, IV16, 10000);
+	memcpy(pwd2, DATA + 300, 24); pwd2[23] ^= 0x01;
+	sec_add(PRIV, 32, "privkey"); sec_add(DATA + 300, 24, "password");
+	out_add(BUF1, 64);
+	g_expect = ERR_BAD_KEYTOKEN;
+	return RUN("bpkiPrivkeyUnwrap", bpkiPrivkeyUnwrap(BUF1, &n, BUF2, l, pwd2, 24));
+}
+
+/* bignKeyUnwrap on a token whose x is NOT the abscissa of a curve point, made by someone who knows d: the steps of
+   bignKeyUnwrap are replayed (y <- (x^3 + ax + b)^((p+1)/4), R <- d (x, y), theta <- <x_R>) and the key is wrapped under
+   theta with the expected header.  A correct implementation stops at the on-curve test: ERR_BAD_KEYTOKEN, key untouched. */
+static size_t oc_deep(size_t n, size_t f_deep, size_t ec_d, size_t ec_deep) { return 16384; }
+static err_t s_bignKUoc(int var)
+{
+	err_t code; static size_t ST[6000]; ec_o* ec; size_t n, no, x0; word *d, *R, *t1, *t2; void* stack; octet theta[32];
+	material(); bign_setup(); sec_reset(); out_reset();
+	if (bignStart_keep(128, oc_deep) > sizeof ST || bignStart(ST, PARAMS) != ERR_OK) return ERR_BAD_LOGIC;
+	ec = (ec_o*)ST; n = ec->f->n; no = ec->f->no;
+	d = objEnd(ec, word); R = d + n; t1 = R + 2 * n; t2 = t1 + n; stack = t2 + n;
+	wwFrom(d, PRIV, no);
+	for (x0 = 2; x0 < 200; ++x0)
+	{
+		memset(XT, 0, no); XT[0] = (octet)x0;
+		if (!qrFrom(R, XT, ec->f, stack)) continue;
+		qrSqr(t1, R, ec->f, stack); zmAdd(t1, t1, ec->A, ec->f); qrMul(t1, t1, R, ec->f, stack); zmAdd(t1, t1, ec->B, ec->f);
+		wwCopy(R + n, ec->f->mod, n); zzAddW2(R + n, n, 1); wwShLo(R + n, n, 2);
+		qrPower(R + n, t1, R + n, n, ec->f, stack);
+		qrSqr(t2, R + n, ec->f, stack);
+		if (!wwEq(t1, t2, n)) break;          /* x0 is not on the curve */
+	}
+	if (x0 == 200 || !ecMulA(R, R, ec, d, n, stack)) return ERR_BAD_LOGIC;
+	qrTo(theta, ecX(R), ec->f, stack);
+	xkey(32);
+	if (beltKWPWrap(XT + no, XK, 32, HDR16, theta, 32) != ERR_OK) return ERR_BAD_LOGIC;
+	sec_add(PRIV, 32, "privkey");
+	out_add(XO, 32); g_outdoc = 1;
+	g_expect = ERR_BAD_KEYTOKEN;
+	return RUN("bignKeyUnwrap", bignKeyUnwrap(XO, PARAMS, XT, no + 32 + 16, HDR16, PRIV));
+}
+
 static const scen_t SCEN2[] = {
 	{"b96Gen", "bign96KeypairGen", 5, s_b96Gen}, {"b96KVal", "bign96KeypairVal", 5, s_b96KVal},
 	{"b96Calc", "bign96PubkeyCalc", 5, s_b96Calc}, {"b96PVal", "bign96PubkeyVal", 4, s_b96PVal},
@@ -1325,6 +1492,12 @@ static const scen_t SCEN2[] = {
 	{"bpaceB", "bakeBPACERunB", 12, s_bpaceB}, {"bpaceA", "bakeBPACERunA", 12, s_bpaceA},
 	{"bstsB2", "bakeBSTSRunB", 10, s_bstsB2}, {"bstsA2", "bakeBSTSRunA", 10, s_bstsA2},
 	{"bstsS4", "bakeBSTSStep4", 4, s_bstsS4}, {"bstsS5", "bakeBSTSStep5", 4, s_bstsS5},
+	{"kwpUx", "beltKWPUnwrap", 28, s_kwpUx}, {"kwpWx", "beltKWPWrap", 7, s_kwpWx},
+	{"bignKUx", "bignKeyUnwrap", 28, s_bignKUx}, {"bignKWx", "bignKeyWrap", 7, s_bignKWx},
+	{"dwpUx", "beltDWPUnwrap", 28, s_dwpUx}, {"cheUx", "beltCHEUnwrap", 28, s_cheUx},
+	{"hotpx", "botpHOTPRand", 6, s_hotpx}, {"hotpVx", "botpHOTPVerify", 12, s_hotpVx}, {"totpx", "botpTOTPVerify", 12, s_totpx},
+	{"hmacx", "beltHMAC", 6, s_hmacx}, {"brnghx", "brngHMACRand", 6, s_brnghx}, {"pbkdfx", "beltPBKDF2", 5, s_pbkdfx},
+	{"bpkiPUx", "bpkiPrivkeyUnwrap", 1, s_bpkiPUx}, {"bignKUoc", "bignKeyUnwrap", 1, s_bignKUoc},
 	{"belsStdM", "belsStdM", 3, s_belsStdM}, {"belsValM", "belsValM", 4, s_belsValM}, {"belsGenM0", "belsGenM0", 4, s_belsGenM0},
 	{"belsGenMi", "belsGenMi", 6, s_belsGenMi}, {"belsGenMid", "belsGenMid", 3, s_belsGenMid},
 	{"csrRe", "bpkiCSRRewrap", 5, s_csrRe}, {"csrUn", "bpkiCSRUnwrap", 5, s_csrUn},
